@@ -472,7 +472,13 @@ func (s *Store) writeIndexFile() error {
 	if err != nil {
 		return fmt.Errorf("failed to marshal index file: %w", err)
 	}
-	return os.WriteFile(s.indexPath, indexJSON, 0666)
+	// write to a temporary file and rename it, so that a crash never leaves a
+	// truncated index.json behind
+	tempPath := s.indexPath + ".tmp"
+	if err := os.WriteFile(tempPath, indexJSON, 0666); err != nil {
+		return err
+	}
+	return os.Rename(tempPath, s.indexPath)
 }
 
 // GC removes garbage from Store. Unsaved index will be lost. To prevent unexpected
